@@ -14,6 +14,14 @@ requests (floats as 16 hex digits or `nan`; `codes` = FLOWDIRCODE.ravel() read f
   caccs   nrows ncols [codes] [flowdir] maxcells nodata [field] [acc0] alias(0|1)     -> ok:[field memory after] [accumulation memory after] [sens] T1|T0 | err:<kind>
   clo     nrows ncols [codes] [flowdir] fuel                                        -> [closure of cell 0;closure of cell 1;...] [direct upstream of 0;...]
   spec    nrows ncols [codes] [flowdir] fuel                             -> allTerminate(0/1) [endsAt per cell, -9 = none]
+  caccp   nrows ncols [codes] [flowdir] nprint maxcells nodata [field] [acc0]       -> ok:[acc] lines same(1|0: equal to cAccumulate without nprint) | err:<kind>
+  acci    nrows ncols [codes] [flowdir] maxcells nodata(int) [field ints]           -> ok:[acc as integers] F1|F0 (F1: the Float instance on the same integers gives exactly these values) | err:<kind>
+  accr    nrows ncols [codes] [flowdir] maxcells nodata [field]                     -> R1|R0|skip  (R1: the Float instance equals, bit for bit, the kernel on exact rationals rounded to 53 bits after every addition; skip: a non-finite input)
+  pin     nrows ncols [codes] [flowdir] maxcells nodata [field]                     -> eq|ne   (pinned kernel vs repaired kernel, accumulation = copy of the field)
+  hist    nrows ncols [codes] [flowdir] fdnodata maxcells <none | fnr:fnc:fnd:[fdata]> op ...   -> reply|reply|...|final:<field>;<result>;[flowdir]
+          ops: call cap:m fdset:i:code fdassign:nr:nc:[..] fdnd:x fdclone fset:i:x fassign:nr:nc:[..] fnd:x fnew:nr:nc:nd:[..] fdrop fclone
+               rset:i:x rfill:x rnd:x feedback ; replies: done | rej | <the gacc reply of the call>
+          grid in `final`: none | nr:nc:nd:[data]
 -/
 
 def errName : Err → String
@@ -45,6 +53,75 @@ def fmtGrid (g : FlowGrid) (mc : Int) : Except Err (Store Float × FieldGrid Flo
       ++ (if allTerminateB g (fuelOf (capOf g mc)) then " T1" else " T0")
   | .error e => "err:" ++ errName e
 
+
+/-! histories -/
+
+def fieldTok? (t : String) : Option (Option (FieldGrid Float)) :=
+  if t = "none" then some none
+  else match t.splitOn ":" with
+    | [nr, nc, nd, data] =>
+      match nr.toInt?, nc.toInt?, floatTok? nd, parseFloatList? data with
+      | some nr, some nc, some nd, some data => some (some ⟨nr, nc, data.toArray, nd⟩)
+      | _, _, _, _ => none
+    | _ => none
+
+def opTok? (t : String) : Option (Op Float) :=
+  match t.splitOn ":" with
+  | ["call"] => some .call
+  | ["cap", m] => m.toInt?.map .setCap
+  | ["fdset", i, c] => match i.toInt?, c.toInt? with
+    | some i, some c => some (.fdSetCell i c)
+    | _, _ => none
+  | ["fdassign", nr, nc, d] => match nr.toInt?, nc.toInt?, parseIntList? d with
+    | some nr, some nc, some d => some (.fdAssign nr nc d.toArray)
+    | _, _, _ => none
+  | ["fdnd", x] => (floatTok? x).map .fdSetNodata
+  | ["fdclone"] => some .fdClone
+  | ["fset", i, x] => match i.toInt?, floatTok? x with
+    | some i, some x => some (.fSetCell i x)
+    | _, _ => none
+  | ["fassign", nr, nc, d] => match nr.toInt?, nc.toInt?, parseFloatList? d with
+    | some nr, some nc, some d => some (.fAssign nr nc d.toArray)
+    | _, _, _ => none
+  | ["fnd", x] => (floatTok? x).map .fSetNodata
+  | ["fnew", nr, nc, nd, d] => match nr.toInt?, nc.toInt?, floatTok? nd, parseFloatList? d with
+    | some nr, some nc, some nd, some d => some (.fNew ⟨nr, nc, d.toArray, nd⟩)
+    | _, _, _, _ => none
+  | ["fdrop"] => some .fDrop
+  | ["fclone"] => some .fClone
+  | ["rset", i, x] => match i.toInt?, floatTok? x with
+    | some i, some x => some (.rSetCell i x)
+    | _, _ => none
+  | ["rfill", x] => (floatTok? x).map .rFill
+  | ["rnd", x] => (floatTok? x).map .rSetNodata
+  | ["feedback"] => some .feedBack
+  | _ => none
+
+def fmtFieldGrid : Option (FieldGrid Float) → String
+  | none => "none"
+  | some f => toString f.nrows ++ ":" ++ toString f.ncols ++ ":" ++ hexOfFloat f.nodata ++ ":" ++ fmtFloatList f.data.toList
+
+/-- the reply of a call in the format of `gacc`: values, order-sensitive cells, no-data value and shape of the result,
+the memory of the field after the call (what `Sess.input` is in the state after the call), region flag -/
+def fmtCallReply (s s' : Sess Float) : Reply Float → String
+  | .result r =>
+    let fuel := fuelOf (capOf s.fd s.cap)
+    "ok:" ++ fmtFloatList r.data.toList ++ " " ++ fmtIntList (orderSensitive s.fd fuel) ++ " " ++ hexOfFloat r.nodata ++ " " ++
+      toString r.nrows ++ " " ++ toString r.ncols ++ " " ++ fmtFloatList s'.input.1.toList ++
+      (if allTerminateB s.fd fuel then " T1" else " T0")
+  | .rejected => "err:rejected"
+  | .done => "done"
+
+def runHist (s : Sess Float) : List (Op Float) → List String → Sess Float × List String
+  | [], out => (s, out.reverse)
+  | op :: rest, out =>
+    let (s', r) := step s op
+    let txt := match op, r with
+      | .call, r => fmtCallReply s s' r
+      | _, .rejected => "rej"
+      | _, _ => "done"
+    runHist s' rest (txt :: out)
+
 def handle (toks : List String) : String :=
   match toks with
   | ["gacc", nr, nc, codes, fd, mc, fdnd, "none"] =>
@@ -64,6 +141,70 @@ def handle (toks : List String) : String :=
           fmtIntList (orderSensitive g (fuelOf mc)) ++ (if allTerminateB g (fuelOf mc) then " T1" else " T0")
       | .error e => "err:" ++ errName e
     | _, _, _, _, _ => "bad-op"
+  | "hist" :: nr :: nc :: codes :: fd :: fdnd :: mc :: ftok :: ops =>
+    match grid? nr nc codes fd, floatTok? fdnd, mc.toInt?, fieldTok? ftok, allSome (ops.map opTok?) with
+    | some g, some fdnd, some mc, some f0, some ops =>
+      let s0 : Sess Float := match f0 with
+        | some f => ⟨g, fdnd, #[f], some 0, none, mc⟩
+        | none => ⟨g, fdnd, #[], none, none, mc⟩
+      let (_, out) := runHist s0 ops []
+      -- the objects at the end: the model's `run` itself
+      let s := (run s0 ops).1
+      "|".intercalate out ++ "|final:" ++ fmtFieldGrid s.fieldGrid ++ ";" ++ fmtFieldGrid s.resGrid ++ ";" ++
+        fmtIntList s.fd.flowdir.toList
+    | _, _, _, _, _ => "bad-op"
+  | ["caccp", nr, nc, codes, fd, np, mc, nodata, field, acc0] =>
+    match grid? nr nc codes fd, np.toInt?, mc.toInt?, floatTok? nodata, parseFloatList? field, parseFloatList? acc0 with
+    | some g, some np, some mc, some nodata, some field, some acc0 =>
+      match cAccumulateP g np mc nodata field.toArray acc0.toArray with
+      | .ok (a, lines) =>
+        let same := match cAccumulate g mc nodata field.toArray acc0.toArray with
+          | .ok b => fmtFloatList a.toList == fmtFloatList b.toList
+          | .error _ => false
+        "ok:" ++ fmtFloatList a.toList ++ " " ++ toString lines ++ (if same then " 1" else " 0")
+      | .error e => "err:" ++ errName e
+    | _, _, _, _, _, _ => "bad-op"
+  | ["acci", nr, nc, codes, fd, mc, nodata, field] =>
+    match grid? nr nc codes fd, mc.toInt?, nodata.toInt?, parseIntList? field with
+    | some g, some mc, some nodata, some field =>
+      match accumulate g mc nodata field.toArray with
+      | .ok a =>
+        let fl := match accumulate g mc (Float.ofInt nodata) (field.map Float.ofInt).toArray with
+          | .ok b => b.toList == a.toList.map Float.ofInt
+          | .error _ => false
+        -- the same kernel at `Rounded Float id`: IEEE addition followed by the identity "rounding" is IEEE addition
+        let rd := match accumulate g mc (⟨Float.ofInt nodata⟩ : Rounded Float (fun x => x))
+            (field.map fun z => (⟨Float.ofInt z⟩ : Rounded Float (fun x => x))).toArray with
+          | .ok b => b.toList.map (·.val) == a.toList.map Float.ofInt
+          | .error _ => false
+        "ok:" ++ fmtIntList a.toList ++ (if fl && rd then " F1" else " F0")
+      | .error e => "err:" ++ errName e
+    | _, _, _, _ => "bad-op"
+  | ["accr", nr, nc, codes, fd, mc, nodata, field] =>
+    match grid? nr nc codes fd, mc.toInt?, floatTok? nodata, parseFloatList? field with
+    | some g, some mc, some nodata, some field =>
+      match ratOfFloat? nodata, allSome (field.map ratOfFloat?) with
+      | some ndR, some fR =>
+        let a := accumulate g mc nodata field.toArray
+        let b := accumulate g mc (⟨ndR⟩ : Rounded Rat (rndBits 53)) (fR.map fun x => (⟨x⟩ : Rounded Rat (rndBits 53))).toArray
+        match a, b with
+        | .ok a, .ok b =>
+          -- the Float instance (IEEE addition) against exact rationals rounded to 53 bits after every addition
+          if a.toList.map ratOfFloat? == b.toList.map (fun x => some x.val) then "R1" else "R0"
+        | .error _, .error _ => "R1"
+        | _, _ => "R0"
+      | _, _ => "skip"
+    | _, _, _, _ => "bad-op"
+  | ["pin", nr, nc, codes, fd, mc, nodata, field] =>
+    match grid? nr nc codes fd, mc.toInt?, floatTok? nodata, parseFloatList? field with
+    | some g, some mc, some nodata, some field =>
+      let a := cAccumulatePinned g (capOf g mc) nodata field.toArray field.toArray
+      let b := cAccumulate g (capOf g mc) nodata field.toArray field.toArray
+      let str : Except Err (Array Float) → String := fun r => match r with
+        | .ok x => fmtFloatList x.toList
+        | .error e => errName e
+      if str a == str b then "eq" else "ne"
+    | _, _, _, _ => "bad-op"
   | ["clo", nr, nc, codes, fd, fuel] =>
     match grid? nr nc codes fd, fuel.toNat? with
     | some g, some fuel =>
